@@ -7,6 +7,7 @@ import (
 	"fmt"
 	"io"
 	"log"
+	"math"
 	"strings"
 	"sync"
 	"testing"
@@ -270,8 +271,8 @@ func runOne(c Case) (sig, msg string) {
 func smallValueSuffix(challenge string, pw []byte, digits int) []byte {
 	for i := 0; i < 200000; i++ {
 		cand := append(append([]byte(nil), pw...), []byte(fmt.Sprintf("~%d", i))...)
-		r := secure.Response(challenge, string(cand))
-		if strings.HasPrefix(r, strings.Repeat("0", 8-digits)) {
+		// the whole 30 bit value is short (not only its last eight digits): the number has to be zero padded
+		if v := secure.Value(challenge, string(cand)); v < uint32(math.Pow10(digits)) {
 			return cand
 		}
 	}
@@ -314,7 +315,7 @@ func genCase(t *rapid.T) Case {
 	}
 	c.Password = genPassword(t, "password")
 	if rapid.IntRange(0, 2).Draw(t, "small") == 0 {
-		c.Password = smallValueSuffix(c.Challenge, c.Password, rapid.IntRange(4, 7).Draw(t, "digits"))
+		c.Password = smallValueSuffix(c.Challenge, c.Password, rapid.IntRange(5, 7).Draw(t, "digits"))
 	}
 	// long pass-phrases and challenges: lengths around 56/57 (64 bytes with an 8 digit challenge), 64, 128, and beyond
 	if len(c.Password) > 0 && rapid.IntRange(0, 5).Draw(t, "pw_long") == 0 {
